@@ -36,6 +36,14 @@ def val_check(kind, quick_n, thorough_n, rule):
         def nontrivial(case, impl, model):
             return has_blocks(case, impl, model) and case.get("meta", {}).get("nlines", 0) >= 2
         K.correspondence(rep, rows, f"val:{kind}", nontrivial, known=K.load_known(rep.prop))
+        del rows
+        # the property's own quantifier: every configuration x every line sequence up to a length, enumerated exhaustively
+        maxlen = {"quick": {"keep-sorted": 3, "keep-unique": 3, "line-pattern": 3, "line-count": 4},
+                  "thorough": {"keep-sorted": 5, "keep-unique": 5, "line-pattern": 5, "line-count": 6}}[tier].get(kind)
+        if maxlen:
+            rep.rules.append(f"exhaustive: every configuration of the rule x every sequence of at most {maxlen} lines over the rule's boundary alphabet (ordered / equal / prefix-related / indented / blank / numeric-looking / matching and non-matching lines), in `#`, `//` and `/* */` layouts")
+            rows = K.run_component(rep.prop, f"exhaustive {kind} {maxlen}", [], seed, 0, tier)
+            K.correspondence(rep, rows, f"exhaustive:{kind}", nontrivial, known=K.load_known(rep.prop))
     return run
 
 
